@@ -355,7 +355,11 @@ func genBigStr(t *rapid.T, label string) *string {
 	case k == len(c14Bigs):
 		return nil
 	case k == len(c14Bigs)+1:
-		v := new(big.Int).Lsh(big.NewInt(1), 800)
+		// huge amounts: around the point where the length prefix of the amount needs a second varint byte (127/128 bytes)
+		v := new(big.Int).Lsh(big.NewInt(1), uint(rapid.SampledFrom([]int{800, 1000, 1007, 1008, 1015, 1016, 1024, 2000, 16376}).Draw(t, label+"shift")))
+		if rapid.Bool().Draw(t, label+"minus1") {
+			v.Sub(v, big.NewInt(1))
+		}
 		if rapid.Bool().Draw(t, label+"neg") {
 			v.Neg(v)
 		}
@@ -482,7 +486,7 @@ func TestC14(t *testing.T) {
 		v, _ := new(big.Int).SetString(s, 10)
 		vals = append(vals, v)
 	}
-	for _, sh := range []uint{8, 63, 64, 65, 800} {
+	for _, sh := range []uint{8, 63, 64, 65, 800, 1000, 1008, 1016, 1024, 2000, 16384} {
 		v := new(big.Int).Lsh(big.NewInt(1), sh)
 		vals = append(vals, v, new(big.Int).Neg(v), new(big.Int).Sub(v, big.NewInt(1)))
 	}
